@@ -181,7 +181,7 @@ impl Property for C02 {
     fn cases(tier: Tier) -> u32 {
         match tier {
             Tier::Quick => 3200,
-            Tier::Thorough => 60000,
+            Tier::Thorough => 400000,
         }
     }
 
